@@ -747,3 +747,67 @@ def canonical_handlers(try_node):
         out.append(mk(type_names(h.type), h,
                       copy.deepcopy(h.body[:i] + h.body[i + 1:])))
     return out
+
+
+def flag_facts(funcnode, use_stmt, facts):
+    """Facts that follow from what is known about boolean *flag* locals.
+
+    For a fact (v, pol) about a plain local v all of whose bindings are
+    simple assignments: the bindings to the opposite constant cannot have
+    produced the value, so if exactly one binding `v = E` remains, E had the
+    truth value pol when it was evaluated - and still has at use_stmt if no
+    path from that binding to use_stmt re-binds a name of E without also
+    re-binding v.  Returns the additional (expr, polarity) facts (atoms of
+    E included)."""
+    out = []
+    cfg = None
+    for t, pol in facts:
+        if not isinstance(t, ast.Name):
+            continue
+        v = t.id
+        defs = []
+        simple = True
+        for n in ast.walk(funcnode):
+            if isinstance(n, ast.Name) and n.id == v and \
+                    isinstance(n.ctx, (ast.Store, ast.Del)):
+                simple = False      # re-checked below for Assign targets
+        binds = [n for n in ast.walk(funcnode)
+                 if isinstance(n, ast.Assign) and len(n.targets) == 1 and
+                 isinstance(n.targets[0], ast.Name) and
+                 n.targets[0].id == v]
+        n_stores = sum(1 for n in ast.walk(funcnode)
+                       if isinstance(n, ast.Name) and n.id == v and
+                       isinstance(n.ctx, (ast.Store, ast.Del)))
+        if n_stores != len(binds) or not binds:
+            continue
+        rest = [b for b in binds
+                if not (isinstance(b.value, ast.Constant) and
+                        b.value.value is (not pol))]
+        if len(rest) != 1 or isinstance(rest[0].value, ast.Constant):
+            continue
+        d = rest[0]
+        names = {x.id for x in ast.walk(d.value) if isinstance(x, ast.Name)}
+        if cfg is None:
+            cfg = CFG(funcnode)
+        if d not in cfg.succ or use_stmt not in cfg.succ:
+            continue
+        stores = [n for n in cfg.stmts()
+                  if n is not d and not isinstance(
+                      n, (ast.If, ast.While, ast.Try, ast.With)) and
+                  any(isinstance(x, ast.Name) and x.id in names and
+                      isinstance(x.ctx, (ast.Store, ast.Del))
+                      for x in ast.walk(n))]
+        others = [b for b in binds if b is not d]
+
+        def blocked(n_):
+            return n_ in others
+        stale = False
+        for s_ in stores:
+            a = s_ is d or cfg.path_avoiding(d, s_, blocked) is not None
+            b = cfg.path_avoiding(s_, use_stmt, blocked) is not None
+            if a and b:
+                stale = True
+        if stale:
+            continue
+        out += list(GuardWalker._atoms(d.value, pol))
+    return out
